@@ -104,7 +104,7 @@ CHECKS = {
         text="Bounded symbolic verification: engines of registered components (Mamdani with every integral defuzzifier, Takagi-Sugeno with "
              "Constant/Linear/Function terms, Tsukamoto, hedged consequents, two blocks with an output variable in an antecedent) are "
              "built twice from the same symbolic state; the real code processes a batch of N symbolic rows at once (both batch APIs) and "
-             "the same rows one after another as scalars, through a shim whose array shape handling is NumPy's own; per row the solver "
+             "the same rows one after another as plain Python floats (a symbolic flavour whose division by zero raises, as a Python float's does), through a shim whose array shape handling is NumPy's own; per row the solver "
              "decides whether any output value or fuzzy-output degree can differ, over all extended-real inputs, every lock-previous/"
              "default/lock-range setting and an arbitrary previous value, and a path where exactly one mode raises is a counterexample.",
         note=NOTE_R + "N <= 3 rows quick (4 thorough); fuzzy_value() strings not modelled (degrees compared); General activation.",
